@@ -249,7 +249,7 @@ def run(rep: Report, prog: Program, tier: str) -> None:
     # "every message is delivered" needs the retransmission machinery to keep running: shared with C02
     from .sctploop import loop_rule
     loop_rule(rep, prog, PROP, "C01-LOOP", tier)
-    import_rules(rep, prog, tier, PROP, "C01-RETX", "C02", ["C02-T3", "C02-KICK", "C02-FS", "C02-REINIT", "C02-HANDSHAKE"],
+    import_rules(rep, prog, tier, PROP, "C01-RETX", "C02", ["C02-T3", "C02-KICK", "C02-FS", "C02-REINIT", "C02-HANDSHAKE", "C02-SETUP"],
                  "lost chunks keep being retransmitted: T3 is (re)armed whenever data is outstanding, queued data is kicked, flight-size accounting cannot stall "
                  "the sender; the receive state is only (re)initialised by the handshake, so a late duplicate of a handshake datagram cannot make old data count as new "
                  "(rules C02-T3, C02-KICK, C02-FS, C02-REINIT, C02-HANDSHAKE)", 10)
